@@ -7,20 +7,19 @@
 // Contracts for the deductive verifier in /verif (govc). Comment-only: this file contains no code
 // and is excluded from every build that does not set the "verif" tag.
 
-package values
+package path
 
 //@ import configapi "github.com/onosproject/onos-api/go/onos/config/v2"
-//@ import gnmi "github.com/openconfig/gnmi/proto/gnmi"
 
-//@ func PathValuesToGnmiChange(values, target) (req, err)
-//@   trusted
-//@   modifies nothing
-//@   ensures err != nil ==> req == nil
-//@   ensures err == nil ==> req != nil && fresh(req) && len(req.Extension) == 0 && req.Prefix != nil && fresh(req.Prefix) && req.Prefix.Target == target
+// request checks that refuse a Set operation: every refusal is counted
+//@ ghost checkFailures int
 
-//@ func GnmiTypedValueToNativeType(gnmiTv, modelPath) (v, err)
+//@ func FindPathFromModel(path, rwPaths, exact) (isExact, rwPath, err)
 //@   trusted
 //@   modifies checkFailures
 //@   ensures checkFailures == old(checkFailures) + ite(err == nil, 0, 1)
-//@   ensures err == nil ==> v != nil
-//@   fresh v
+//@   ensures err == nil ==> rwPath != nil
+//@ func CheckKeyValue(path, rwPath, val) (err)
+//@   trusted
+//@   modifies checkFailures
+//@   ensures checkFailures == old(checkFailures) + ite(err == nil, 0, 1)
